@@ -40,6 +40,8 @@ func checkC05(c *Check) {
 	ruleBlocksCloseLatch(c, p, "R05.7")
 	ruleErrorsNotAbsorbed(c, p, "R05.8", readerSideFuncs(p), errAbsorbExempt)
 	ruleSyntheticEOF(c, p, "R05.9")
+	ruleObserversPure(c, p, "R05.12")
+	c.RuleDoc["R05.12"] = "observer methods are pure (= R17.15): Size() cannot consume or judge a header"
 	ruleHeaderParsers(c, p, "R05.11")
 	c.RuleDoc["R05.11"] = "the header is parsed only by Reader.init (error latched) and ValidFrameHeader (private frame, whole input)"
 	c.only(func(k string) bool { return strings.HasPrefix(k, "initR.worker#") }, func() { ruleReleaseAfterUse(c, p, "R05.10") })
